@@ -15,7 +15,8 @@ RULE = (
     "Hypothesis draws a key/value tree (depth 0..5, fan-out 0..8, UTF-8 keys of 1..60 bytes incl. multi-byte characters and of 126..254 bytes, values "
     "of all types: Int (full int64), UInt (full uint64), Double (incl. +-inf, -0.0, NaN compared by bit pattern), String "
     "(UTF-16-LE incl. astral characters and leading U+FEFF / U+FFFE and embedded / trailing U+0000, length 0..3000), Array (0..6000 bytes), Bool; values >= 0x800 bytes and some smaller "
-    "ones stored in file objects) and a serialisation: entries distributed over 1..6 key tables in shuffled order with "
+    "ones stored in file objects) and a serialisation: entries distributed over 1..6 key tables (numbered 1..N or with gaps / high "
+    "indices) in shuffled order with "
     "parents in other tables, free entries (with zeroed or stale, unresolvable parent references) and slack bytes interleaved, file "
     "objects behind the tables or at offsets around and beyond 4 GiB (sparse in-memory file), table tail zero-filled or a free entry, stale key "
     "tables with the same index and a lower sequence number (different content) before or after the active one, object-table "
@@ -133,11 +134,54 @@ def tree_spec(draw, tier):
         # file objects at absolute offsets around and beyond 4 GiB (sparse in-memory file)
         "fo_far": draw(st.sampled_from([0, 0, 0, 0xFFFFF000, 1 << 32, (1 << 32) + 0x5000, 0x2_8000_0000])),
     }
+    if draw(st.integers(0, 2)) == 0:
+        # key-table indices need not be 1..N: gaps and high indices
+        new_idx = sorted(draw(st.lists(st.integers(1, 40), min_size=ntables, max_size=ntables, unique=True)))
+        remap = {t: new_idx[t - 1] for t in range(1, ntables + 1)}
+        for e in spec["entries"]:
+            e["table"] = remap[e["table"]]
+        spec["tables"] = {str(remap[int(k)]): v for k, v in spec["tables"].items()}
+        for v in spec["tables"].values():
+            fsp = v.get("free_stale_parent")
+            if fsp and fsp[0] in remap:
+                v["free_stale_parent"] = [remap[fsp[0]], fsp[1]]
     return spec
 
 
 def strategy(tier):
     return tree_spec(tier)
+
+
+def _base(entries, tables, **kw):
+    return dict({"entries": entries, "tables": tables, "headers": {"seq": [7, 3], "bad_other": ""},
+                 "object_table": {"holes": [], "hole_type": 0, "chain_at": None, "trailing": 0, "chain_depth": 1, "chain_backwards": False},
+                 "gap": 0, "fo_far": 0}, **kw)
+
+
+EXHAUSTIVE_NOTE = "deep chains (400 / 700 / 900 levels, decoded with the recursion budget a shallow caller has) and completely full object tables"
+EXHAUSTIVE_SHARDS = 4
+
+
+def exhaustive(tier):
+    # a tree is as deep as its file says: chains of several hundred levels, decoded with ~990 free stack frames
+    for n in (400, 700, 900):
+        ents = [{"id": i, "parent": (i - 1 if i else None), "key": f"k{i}", "type": "node", "value": None, "table": 1 + i % 3, "fo": False,
+                 "slack": 0, "ins": 1, "depth": i} for i in range(n)]
+        ents.append({"id": n, "parent": n - 1, "key": "leaf", "type": "int", "value": 7, "table": 1, "fo": False, "slack": 0, "ins": 1, "depth": n})
+        yield _base(ents, {"1": {"seq": 3}, "2": {"seq": 4}, "3": {"seq": 5}}, deep_chain=n)
+    # an object table whose 227 slots are all in use (file objects + key tables), the last slot holding a key table / a file object
+    for last in ("key-table", "file-object"):
+        nkt = 4
+        nfo = 227 - nkt
+        ents = [{"id": 0, "parent": None, "key": "root", "type": "node", "value": None, "table": 1, "fo": False, "slack": 0, "ins": 1, "depth": 0}]
+        for i in range(nfo):
+            ents.append({"id": 1 + i, "parent": 0, "key": f"v{i}", "type": "array", "value": bytes([i % 251] * 8).hex(), "table": 1 + i % nkt,
+                         "fo": True, "slack": 0, "ins": 1, "depth": 1})
+        tables = {str(t): {"seq": 2 + t} for t in range(1, nkt + 1)}
+        order = list(range(227)) if last == "file-object" else list(range(nkt, 227)) + list(range(nkt))
+        spec = _base(ents, tables, full_object_table=last)
+        spec["object_table"]["order"] = order
+        yield spec
 
 
 def typed(v):
@@ -183,7 +227,7 @@ def check(spec) -> Outcome:
 
     out = Outcome()
     data, meta = bh.build(spec)
-    exp = bh.tree_of(spec)
+    exp = bh.tree_of(spec) if not spec.get("deep_chain") else None  # (the chain is compared iteratively below)
     types = {e["type"] for e in spec["entries"]}
     nfo = sum(1 for e in spec["entries"] if e.get("fo"))
     out.nontrivial = meta["n_key_tables"] >= 2 and nfo >= 1 and len(types - {"node"}) >= 3
@@ -191,6 +235,10 @@ def check(spec) -> Outcome:
             "chained-object-table" if spec["object_table"]["chain_at"] is not None else "single-object-table")
     if any(t.get("stale") for t in spec["tables"].values()):
         out.cls("stale-tables")
+    if sorted(int(k) for k in spec["tables"]) != list(range(1, len(spec["tables"]) + 1)):
+        out.cls("sparse-table-indices")
+    if spec.get("full_object_table"):
+        out.cls("full-object-table")
     if meta.get("far_objects"):
         from hv.sparse import SparseFile
 
@@ -211,6 +259,28 @@ def check(spec) -> Outcome:
         out.fail("mismatch|active-header", f"header.sequence_number {hf.header.sequence_number} != {meta['active_seq']}")
     if hf.replay_logs[0].offset != meta["replay_log_offset"]:
         out.fail("mismatch|active-header", f"replay log offset {hf.replay_logs[0].offset:#x} != {meta['replay_log_offset']:#x}")
+    if spec.get("deep_chain"):
+        import inspect
+        import sys
+
+        out.cls("deep-chain")
+        old_limit = sys.getrecursionlimit()
+        sys.setrecursionlimit(len(inspect.stack()) + 990)  # what a caller a few frames deep has with the default limit of 1000
+        try:
+            got, err = lib(hf.as_dict)
+        finally:
+            sys.setrecursionlimit(old_limit)
+        if err:
+            out.fail(err.sig("hyperv-as_dict-deep"), f"as_dict() of a {spec['deep_chain']}-level chain raised {err.describe()}")
+            return out
+        depth, cur = 0, got
+        while isinstance(cur, dict) and len(cur) == 1:
+            cur = next(iter(cur.values()))
+            depth += 1
+        if depth != spec["deep_chain"] + 1 or cur != 7:
+            out.fail("mismatch|deep-chain", f"decoded chain is {depth} levels deep ending in {cur!r}, expected {spec['deep_chain'] + 1} ending in 7")
+        out.nontrivial = True
+        return out
     got, err = lib(hf.as_dict)
     if err:
         out.fail(err.sig("hyperv-as_dict"), f"as_dict() raised {err.describe()}")
